@@ -29,11 +29,27 @@ EA == 19      \* U+00E9 (what CS normalises to)
 L1022 == 20  L1023 == 21  L1024 == 22      \* runs of n letters "a"
 V6B == 23     \* "fe80::1": the text of an IPv6 address without its brackets
 PCT == 24     \* "%" (introduces a zone in textual IPv6 addresses; no zone is part of an IP literal of RFC 7622 3.2 / RFC 3986)
+(* A-label family.  RFC 5890 2.3.2.1: an A-label begins with the ACE prefix "xn--" (case independent); RFC 7622  *)
+(* 3.2.1: "each A-label MUST be converted to a U-label"; RFC 5895 maps upper case to lower case first.  So every *)
+(* case variant of the A-label of U+00FC denotes the U-label U+00FC.  The other tokens are labels that carry the  *)
+(* prefix without being the A-label of a valid U-label: nothing is claimed for them ("free": only the laws).      *)
+XNU == 25     \* "XN--tda"  the prefix in upper case
+XNM == 26     \* "Xn--tda"  the prefix in mixed case
+XNm == 27     \* "xN--tda"
+XNT == 28     \* "xn--TDA"  lower-case prefix, the Punycode digits in upper case (RFC 3492: digits are case-insensitive)
+XNBAD == 29   \* "xn--a"    Punycode that decodes to U+0080 (no valid label)
+XNMAP == 30   \* "xn--7ba"  valid Punycode of U+00C4, which IDNA maps further (to U+00E4): not the A-label of a U-label
+XNASC == 31   \* "xn--a-"   Punycode of the all-ASCII label "a" (a "fake A-label")
+XNE == 32     \* "xn--"     the bare prefix
 
 Core  == 1..19                  \* symbols of the exhaustive enumeration
 Longs == {L1022, L1023, L1024}
 IPSyms == {V6B, PCT}            \* symbols of the IP-literal family (EmitJID.IPStrs)
-Sigma == Core \cup Longs \cup IPSyms
+ACECase == {XNU, XNM, XNm, XNT}                \* case variants of the A-label XN
+ACEFree == {XNBAD, XNMAP, XNASC, XNE}          \* labels with the prefix for which no canonical form is claimed
+ACESyms == {XN} \cup ACECase \cup ACEFree       \* symbols of the A-label family (EmitJID.ACEStrs)
+Sigma == Core \cup Longs \cup IPSyms \cup ACESyms
+NSyms == 32
 
 (* concrete text of each symbol for the Go driver: code points, or raw bytes, or a run *)
 Text == [s \in Sigma |->
@@ -46,11 +62,16 @@ Text == [s \in Sigma |->
     [] s = BAD -> <<-255>>                      \* negative: a raw byte
     [] s = EA -> <<233>>
     [] s = V6B -> <<102, 101, 56, 48, 58, 58, 49>> [] s = PCT -> <<37>>
+    [] s = XNU -> <<88, 78, 45, 45, 116, 100, 97>> [] s = XNM -> <<88, 110, 45, 45, 116, 100, 97>>
+    [] s = XNm -> <<120, 78, 45, 45, 116, 100, 97>> [] s = XNT -> <<120, 110, 45, 45, 84, 68, 65>>
+    [] s = XNBAD -> <<120, 110, 45, 45, 97>> [] s = XNMAP -> <<120, 110, 45, 45, 55, 98, 97>>
+    [] s = XNASC -> <<120, 110, 45, 45, 97, 45>> [] s = XNE -> <<120, 110, 45, 45>>
     [] s = L1022 -> <<-100000 - 1022>> [] s = L1023 -> <<-100000 - 1023>> [] s = L1024 -> <<-100000 - 1024>>]
 
 (* UTF-8 length of the symbol's text *)
 BLen == [s \in Sigma |->
   CASE s \in {FW, IDS} -> 3 [] s = CS -> 3 [] s \in {UU, EA} -> 2 [] s = XN -> 7 [] s = V4 -> 9 [] s = V6 -> 13 [] s = V6B -> 7
+    [] s \in ACECase \cup {XNMAP} -> 7 [] s = XNBAD -> 5 [] s = XNASC -> 6 [] s = XNE -> 4
     [] s = L1022 -> 1022 [] s = L1023 -> 1023 [] s = L1024 -> 1024 [] OTHER -> 1]
 
 RECURSIVE SumLen(_)
@@ -89,7 +110,8 @@ Assemble(l, d, r) == AssembleWith(l, d, r, SL, AT)
 CONSTANT Dev      \* named deviations (always {} in design checks and validation)
 
 (* localpart: UsernameCaseMapped (width mapping, lower case, NFC) + RFC 7622 3.3.1 *)
-NormLSym(s) == CASE s \in {UA, FW} -> a [] s = CS -> EA [] OTHER -> s
+NormLSym(s) == CASE s \in {UA, FW} -> a [] s = CS -> EA [] s \in ACECase -> XN      \* (in a localpart the token is just ASCII text: lower-cased)
+                   [] OTHER -> s
 NormL(p) == MapSeq(p, NormLSym)
 ForbiddenLocal == {AT, SL, QUOT, COLON, V6, V6B}       \* (& ' < > have no representative; V6 contains ":")
 ClsL(p) ==
@@ -107,7 +129,7 @@ ClsR(p) ==
   ELSE IF SumLen(NormR(p)) > 1023 THEN "bad" ELSE "ok"
 
 (* domainpart: IP literal, or labels; one final label separator is stripped; IDNA mapping *)
-NormDSym(s) == CASE s \in {UA, FW} -> a [] s = CS -> EA [] s = IDS -> DOT [] OTHER -> s
+NormDSym(s) == CASE s \in {UA, FW} -> a [] s = CS -> EA [] s = IDS -> DOT [] s \in ACECase -> XN [] OTHER -> s
 RECURSIVE Labels(_)      \* split at DOT
 Labels(p) == LET i == FirstIdx(p, DOT) IN
              IF i = 0 THEN <<p>> ELSE <<SubSeq(p, 1, i - 1)>> \o Labels(SubSeq(p, i + 1, Len(p)))
@@ -118,7 +140,7 @@ DLabels(p) == LET ls == Labels(MapSeq(p, NormDSym)) IN
 NormLabel(lb) == IF lb = <<XN>> THEN <<UU>> ELSE lb
 IPLit(p) == p = <<V6>> \/ p = <<LB, V6B, RB>>          \* a bracketed IPv6 address and nothing else
 NormDStrict(p) == IF IPLit(p) THEN p ELSE Join(MapSeq(DLabels(p), NormLabel))
-DomainLetters == {a, UA, DOT, FW, CS, IDS, UU, XN, EA} \cup Longs
+DomainLetters == {a, UA, DOT, FW, CS, IDS, UU, XN, EA} \cup Longs \cup ACECase
 ClsD(p) ==
   IF p = <<>> \/ Has(p, {BAD}) THEN "bad"
   ELSE IF IPLit(p) \/ p \in {<<V4>>, <<V4, DOT>>, <<V4, IDS>>} THEN "ok"
@@ -126,16 +148,20 @@ ClsD(p) ==
   ELSE LET ls == DLabels(p) IN
        IF \E i \in 1..Len(ls) : ls[i] = <<>> THEN "free"                   \* empty label
        ELSE IF SumLen(NormDStrict(p)) > 1023 THEN "bad"
-       ELSE IF \E i \in 1..Len(ls) : (Has(ls[i], {XN}) /\ ls[i] # <<XN>>) \/ SumLen(ls[i]) > 63 THEN "free"
+       ELSE IF \E i \in 1..Len(ls) : (Has(ls[i], {XN}) /\ ls[i] # <<XN>>) \/ SumLen(ls[i]) > 63 THEN "free"   \* (ls is mapped: XN stands for every case variant)
        ELSE "ok"
 
 (* What an implementation does with a "free" part is not fixed by the property.  The model   *)
 (* either rejects it (lenient = FALSE) or accepts it unchanged (lenient = TRUE) unless that   *)
 (* would put a separator into a localpart or domainpart.  The deviation TrailingDotOnce is    *)
 (* the pinned code: one final "." is stripped BEFORE the mapping only.                        *)
+(* The deviation AcePrefixCaseSensitive is an ASCII fast path that looks for the text "xn--" BEFORE it lower-cases   *)
+(* the name: a host name of ASCII letters, dots and A-labels whose prefix is not in lower case is lower-cased and   *)
+(* returned with its A-labels unconverted (which does not survive being parsed again).                              *)
 StripDot(p) == IF p # <<>> /\ p[Len(p)] = DOT THEN SubSeq(p, 1, Len(p) - 1) ELSE p
+AsciiFastPath(p) == ~IPLit(p) /\ \A i \in 1..Len(p) : p[i] \in {a, UA, DOT, XNU, XNM, XNm}
 NormD(p) ==
-  IF ClsD(p) = "ok" THEN NormDStrict(p)
+  IF ClsD(p) = "ok" THEN (IF "AcePrefixCaseSensitive" \in Dev /\ AsciiFastPath(p) THEN Join(DLabels(p)) ELSE NormDStrict(p))
   ELSE IF "TrailingDotOnce" \in Dev THEN MapSeq(StripDot(p), NormDSym)
   ELSE p
 AcceptFreeL(p) == ~Has(p, {AT, SL})
